@@ -1,18 +1,27 @@
-import Ecal.Lemmas.Cascade
+
+import Ecal.Lemmas.CascadeAux
+import Ecal.Lemmas.CascadeShared
+import Ecal.Gen.C02
 /-!
 # C02 — waiting on an event returns after its whole cascade, with exactly its errors
 
 All theorems are about `Ecal.Cascade.step` (the transition system of one root monitor,
 `lean/Ecal/Model/Cascade.lean`) and hold in **every reachable state**: any fan-out, depth,
 number of workers, rule lists, failure pattern, `failOnFirstError` setting and any
-interleaving of workers, adding goroutine, pump and readers. Several cascades in flight
-share nothing in the model but the workers (`Ecal.Cascade.Sys` at the end); every component
-of a reachable system state is a reachable cascade state, so everything lifts.
+interleaving of workers, adding goroutine, pump and readers.
 
-"Eventually returns" is proved in the form: an engine step is enabled whenever work is
-outstanding and a worker is free (`progress`, `release_progress`), and every engine step
-decreases a natural-number measure (`measure_decreases`); with terminating actions and a
-weakly fair scheduler (the assumption; pool side: C09) the wait therefore returns.
+Several cascades in flight: `Ecal.Cascade.Conc` (`Model/CascadeShared.lean`) has ONE observer
+table, ONE list of pending callbacks, ONE queue map and the shared workers; `conc_refines`
+proves that each of its steps, read through `view r`, is a step of `Cascade.step` and leaves the
+other roots' views alone; `conc_view_reachable` lifts every theorem below to each cascade.
+
+The granularity of the events is tied to the Go text by the source facts `src_*` (regenerated
+from the tree under test on every run) and by replaying hook-recorded traces.
+
+"Eventually returns": `progress` / `conc_progress` (a step is enabled while work is outstanding
+and a worker is free), `bounded_internal_runs` (engine runs are finite, ≤ `workLeft`),
+`quiescent_complete`, composed in `wait_returns_partial` (full statement and the missing
+fairness assumption in the comment there).
 -/
 namespace Ecal.Props.C02
 open Ecal.Cascade
@@ -22,8 +31,11 @@ theorem unfinished_counts {s : State} (h : Reachable s) :
     s.unfinished = s.mons.countP (fun m => !m.phase.finished) :=
   (inv_reachable h).count
 
-/-- once the counter is zero no `NewChildMonitor` of this cascade is possible any more
-    (a child is only created by an action executing under an unfinished monitor) -/
+/-- once the counter is zero no `newChild` is enabled any more. NOTE: this is the guard of `newChild`
+    (a child is created only by an action executing under its — hence unfinished — parent monitor;
+    `Task.Run` finishes the monitor after `ProcessEvent`: `src_finish_after_process_event`) combined
+    with `unfinished_counts`. `NewChildMonitor` is a public method without such a guard in Go: a
+    monitor reference used after its action returned is outside the model (stated assumption). -/
 theorem no_child_after_zero {s : State} (h : Reachable s) (hz : s.unfinished = 0) (p : Nat) :
     step s (.newChild p) = none := by
   have hi := inv_reachable h
@@ -98,7 +110,7 @@ theorem wait_after_cascade {s : State} (h : Reachable s) (hw : (step s .waitRetu
   · exact hok.1
 
 example : ∃ s, Reachable s ∧ (step s .waitReturns).isSome :=
-  ⟨_, ⟨1, false, [.register, .addEvent 0 true [7], .pop 0 0, .ruleReturns 0 true, .taskDone 0, .post,
+  ⟨_, ⟨1, false, [.register, .regHandler, .addEvent 0 true [7], .pop 0 0, .ruleReturns 0 true, .taskDone 0, .post,
     .observerRuns .wait], rfl⟩, by decide⟩
 
 /-- the same after the return -/
@@ -117,26 +129,6 @@ theorem returned_after_cascade {s : State} (h : Reachable s) (hw : s.waitReturne
   · exact hok.2.1
   · exact hok.1
 
-/-- an occupied worker can always take its next step (which is not a `pop`) -/
-theorem busy_step {s : State} {j w : Nat} {m : Mon} (hm : s.mons[j]? = some m)
-    (hw : m.phase.worker = some w) : ∃ e, e.internal = true ∧ e.isPop = false ∧ (step s e).isSome := by
-  cases hph : m.phase with
-  | fresh => simp [hph, Phase.worker] at hw
-  | queued => simp [hph, Phase.worker] at hw
-  | done => simp [hph, Phase.worker] at hw
-  | running w' =>
-    cases htodo : m.todo with
-    | nil => refine ⟨.taskDone j, rfl, rfl, ?_⟩; simp only [step, hm, hph, htodo]; split <;> simp
-    | cons r rest => exact ⟨.ruleReturns j true, rfl, rfl, by simp [step, hm, hph, htodo]⟩
-  | failing w' => exact ⟨.setErrors j, rfl, rfl, by simp [step, hm, hph]⟩
-  | errSet w' => exact ⟨.errFinish j, rfl, rfl, by simp [step, hm, hph]⟩
-  | notifying w' => exact ⟨.notified j, rfl, rfl, by simp [step, hm, hph]⟩
-
-theorem busy_enabled {s : State} {j w : Nat} {m : Mon} (hm : s.mons[j]? = some m)
-    (hw : m.phase.worker = some w) : ∃ e, e.internal = true ∧ (step s e).isSome := by
-  obtain ⟨e, h1, _, h3⟩ := busy_step hm hw
-  exact ⟨e, h1, h3⟩
-
 /-- **progress**: a monitor that was handed to the processor is unfinished and some worker is
     not occupied by this cascade ⇒ an engine step is enabled (no stuck cascade). -/
 theorem progress {s : State} {i : Nat} {m : Mon} (hm : s.mons[i]? = some m)
@@ -154,7 +146,7 @@ theorem progress {s : State} {i : Nat} {m : Mon} (hm : s.mons[i]? = some m)
 
 example : ∃ s, Reachable s ∧ ∃ m, s.mons[0]? = some m ∧ m.phase.finished = false ∧ m.phase ≠ .fresh ∧
     s.workerFree 0 = true :=
-  ⟨_, ⟨1, false, [.addEvent 0 true [7]], rfl⟩, by decide⟩
+  ⟨_, ⟨1, false, [.regHandler, .addEvent 0 true [7]], rfl⟩, by decide⟩
 
 /-- In a state where no engine step is enabled (and the pool has at least one worker) every
     monitor that was handed to `AddEvent` is finished. -/
@@ -214,35 +206,64 @@ theorem quiescent_released {s : State} (h : Reachable s)
   · intro hr; simp [hr] at this; omega
 
 
-/-- the state after a one-rule cascade with a failing rule has run to its end -/
-def sEnd : State :=
-  { workers := 1, failFirst := false,
-    mons := [{ parent := none, phase := .done, todo := [], returned := [7], failed := [7], err := some [7], inErrors := true }],
-    unfinished := 0, posted := 1, waiting := true, handlerReg := true, released := 1, handlerCalls := 1 }
-
-theorem sEnd_reachable : Reachable sEnd :=
-  ⟨1, false, [.register, .addEvent 0 true [7], .pop 0 0, .ruleReturns 0 false, .taskDone 0,
-    .setErrors 0, .errFinish 0, .notified 0, .dropQueue, .post, .observerRuns .wait, .observerRuns .handler,
-    .observerRuns .queue], by decide⟩
-
-theorem sEnd_quiescent : ∀ e, e.internal = true → step sEnd e = none := by
-  intro e he
-  cases e with
-  | pop w i => cases i <;> simp [step, sEnd]
-  | ruleReturns i ok => cases i <;> simp [step, sEnd]
-  | taskDone i => cases i <;> simp [step, sEnd]
-  | setErrors i => cases i <;> simp [step, sEnd]
-  | errFinish i => cases i <;> simp [step, sEnd]
-  | notified i => cases i <;> simp [step, sEnd]
-  | dropQueue => decide
-  | post => decide
-  | observerRuns o => cases o <;> decide
-  | _ => simp [Event.internal] at he
-
 /-- non-vacuity of `all_handed_monitors_finish` / `quiescent_released`: a reachable quiescent state -/
 example : ∃ s, Reachable s ∧ 0 < s.workers ∧ (∀ e, e.internal = true → step s e = none) ∧
     (∀ m ∈ s.mons, m.phase ≠ .fresh) ∧ s.waiting = true ∧ s.handlerReg = true :=
   ⟨sEnd, sEnd_reachable, by decide, sEnd_quiescent, by decide, rfl, rfl⟩
+
+/-- `AddEvent` registers the finish-handler observer BEFORE the root's task can be taken by a
+    worker: whenever the root monitor has been handed over with a triggering event, the observer is
+    in place (the model's `addEvent 0 true` — `Activate` + `pool.AddTask` — is only enabled after
+    `regHandler`; the order in the Go code is tied by the hook points `cascade.handler.registered`
+    / `cascade.push` in every replayed trace). -/
+theorem handler_registered_before_push {s : State} (h : Reachable s) {r : Mon}
+    (hr : s.mons[0]? = some r) (hph : r.phase ≠ .fresh) (hsk : r.skipped = false) : s.handlerReg = true := by
+  have hi := inv_reachable h
+  cases hreg : s.handlerReg with
+  | true => rfl
+  | false =>
+    rcases hi.hreg hreg r hr with h1 | h1
+    · exact absurd h1 hph
+    · rw [hsk] at h1; cases h1
+
+/-- **the cascade's finish notification fires exactly once** (over the split steps of `AddEvent`):
+    never twice; and for a root handed over with a triggering event, once no engine step is enabled
+    and every monitor is finished, the finish handler has run exactly once. For a skipped
+    (non-triggering) root event no handler observer is ever registered and it runs zero times. -/
+theorem finish_notification_exactly_once {s : State} (h : Reachable s) :
+    s.posted ≤ 1 ∧ s.handlerCalls ≤ 1 ∧
+    (∀ r, s.mons[0]? = some r → r.phase ≠ .fresh →
+      (r.skipped = false →
+        (∀ e, e.internal = true → step s e = none) → (∀ m ∈ s.mons, m.phase.finished = true) →
+          s.handlerCalls = 1) ∧
+      (r.skipped = true → s.handlerCalls = 0)) := by
+  have hi := inv_reachable h
+  refine ⟨(posted_once h).1, (released_once h).2, ?_⟩
+  intro r hr hph
+  constructor
+  · intro hsk hq hall
+    exact (quiescent_released h hq hall).2.2 (handler_registered_before_push h hr hph hsk)
+  · intro hsk
+    have hreg : s.handlerReg = false := by
+      cases hreg : s.handlerReg with
+      | false => rfl
+      | true => have := hi.hskip hreg r hr; rw [hsk] at this; cases this
+    have hle := hi.post_le
+    by_cases hp0 : s.posted = 0
+    · exact (hi.pre hp0).2.2.2.2.1
+    · have := (hi.post (by omega)).2
+      simp [hreg] at this
+      omega
+
+/-- negative witness: with the observer registered AFTER `pool.AddTask` (`stepLate`, not the code)
+    the cascade can end first; the state below is final (posted, nothing pending) with the handler
+    registered and never called — the notification is lost. -/
+theorem late_handler_registration_loses_notification :
+    ∃ s, [Event.addEvent 0 true [1], .pop 0 0, .ruleReturns 0 true, .taskDone 0, .post,
+          .observerRuns .queue, .regHandler].foldlM stepLate (init 1 false) = some s ∧
+      s.posted = 1 ∧ s.postPending = 0 ∧ s.dHandler = 0 ∧ s.handlerReg = true ∧ s.handlerCalls = 0 ∧
+      s.mons.all (fun m => m.phase.finished) = true :=
+  ⟨_, rfl, by decide⟩
 
 /-- when everything is finished but the waiter has not been released, the post or the wait
     callback is enabled -/
@@ -263,22 +284,6 @@ theorem release_progress {s : State} (h : Reachable s) (hw : s.waiting = true)
 
 /-! ### errors -/
 
-theorem report_eq_expected (l : List Mon) (i : Nat)
-    (h : ∀ m ∈ l, m.ok ∧ m.phase.finished = true) : reportFrom i l = expectedFrom i l := by
-  induction l generalizing i with
-  | nil => rfl
-  | cons m ms ih =>
-    have hm := h m (by simp)
-    have hrest := ih (i + 1) (fun x hx => h x (by simp [hx]))
-    simp only [reportFrom, expectedFrom, hrest]
-    congr 1
-    obtain ⟨hok, hf⟩ := hm
-    cases hph : m.phase <;> simp [hph, Phase.finished, Mon.ok] at hf hok
-    · obtain ⟨h1, h2, h3, h4⟩ := hok
-      simp [h1, h3, h4]
-    · obtain ⟨_, h⟩ := hok
-      rcases h with ⟨h1, h2, h3⟩ | ⟨h1, h2, h3⟩ <;> simp [h1, h2, h3]
-
 /-- **errors_exact**: when the wait can return (and ever after), `AllErrors()` is exactly: one entry
     per monitor (event) with at least one failed action, in monitor order, holding exactly the
     rules whose action returned an error — nothing lost, nothing duplicated, nothing invented.
@@ -295,35 +300,35 @@ theorem errors_exact {s : State} (h : Reachable s) (hw : 0 < s.released) :
   exact report_eq_expected s.mons 0 (fun m hm => ⟨hi.mon_ok m hm, hall m hm⟩)
 
 example : ∃ s, Reachable s ∧ 0 < s.released ∧ allErrors s = [(0, some [8])] :=
-  ⟨_, ⟨1, false, [.register, .addEvent 0 true [7, 8], .pop 0 0, .ruleReturns 0 true, .ruleReturns 0 false,
+  ⟨_, ⟨1, false, [.register, .regHandler, .addEvent 0 true [7, 8], .pop 0 0, .ruleReturns 0 true, .ruleReturns 0 false,
     .taskDone 0, .setErrors 0, .errFinish 0, .post, .observerRuns .wait], rfl⟩, by decide⟩
 
-theorem report_mem (l : List Mon) (i k : Nat) (e : Option (List Nat)) (h : (k, e) ∈ reportFrom i l) :
-    ∃ m, l[k - i]? = some m ∧ i ≤ k ∧ m.inErrors = true ∧ e = m.err := by
-  induction l generalizing i with
-  | nil => simp [reportFrom] at h
-  | cons m ms ih =>
-    simp only [reportFrom, List.mem_append] at h
-    rcases h with h | h
-    · split at h
-      · simp at h
-        obtain ⟨rfl, rfl⟩ := h
-        exact ⟨m, by simp, Nat.le_refl _, by assumption, rfl⟩
-      · simp at h
-    · obtain ⟨m', h1, h2, h3, h4⟩ := ih (i + 1) h
-      refine ⟨m', ?_, by omega, h3, h4⟩
-      have : k - i = (k - (i + 1)) + 1 := by omega
-      rw [this]
-      simpa using h1
+/-- `errors_exact` for the handler mode (`AddEvent` + `SetFinishHandler`): when the finish handler
+    runs (and ever after) the report is exact as well -/
+theorem errors_exact_at_handler {s : State} (h : Reachable s) (hw : 0 < s.handlerCalls) :
+    allErrors s = expectedReport s ∧ ∀ m ∈ s.mons, m.phase.finished = true ∧ m.todo = [] := by
+  have hi := inv_reachable h
+  have hle := hi.post_le
+  have hp1 : s.posted = 1 := by
+    by_cases hp0 : s.posted = 0
+    · have := (hi.pre hp0).2.2.2.2.1; omega
+    · omega
+  have hall := hi.all_finished (by omega)
+  refine ⟨report_eq_expected s.mons 0 (fun m hm => ⟨hi.mon_ok m hm, hall m hm⟩), ?_⟩
+  intro m hm
+  have hf := hall m hm
+  have hok := hi.mon_ok m hm
+  cases hph : m.phase <;> simp [hph, Phase.finished, Mon.ok] at hf hok ⊢
+  · exact hok.2.1
+  · exact hok.1
 
 /-- **allErrors_safe**: at *any* time (in particular from the root-monitor error observer of another
-    task while a failing task is between `SetErrors` and `Finish`) `AllErrors()` of the current code
-    returns, for every entry, a non-nil error object of a monitor whose action(s) really failed,
-    holding exactly that monitor's failed rules. It has no assertion left to hit. -/
+    task while a failing task is between `SetErrors` and `Finish`) every entry `AllErrors()` returns
+    is a non-nil error object of a monitor whose action(s) really failed, holding exactly that
+    monitor's failed rules. That the Go function has no failing branch (no asserting accessor) is
+    the source fact `src_all_errors_calls_no_asserting_accessor`; `Ecal.Cascade.allErrors` is total. -/
 theorem allErrors_safe {s : State} (h : Reachable s) :
-    step s .allErrors = some s ∧
     ∀ k e, (k, e) ∈ allErrors s → ∃ m, s.mons[k]? = some m ∧ m.failed ≠ [] ∧ e = some m.failed := by
-  refine ⟨rfl, ?_⟩
   intro k e hke
   have hi := inv_reachable h
   obtain ⟨m, h1, _, h3, h4⟩ := report_mem s.mons 0 k e hke
@@ -339,7 +344,7 @@ theorem allErrors_safe {s : State} (h : Reachable s) :
     `SetErrors` and `Finish` while anybody (e.g. the error observer of the other task) asks. -/
 theorem allErrors_asserting_unsafe :
     ∃ s, Reachable s ∧ allErrorsAsserting s = none :=
-  ⟨_, ⟨2, false, [.addEvent 0 true [1], .pop 0 0, .newChild 0, .addEvent 1 true [2], .pop 1 1,
+  ⟨_, ⟨2, false, [.regHandler, .addEvent 0 true [1], .pop 0 0, .newChild 0, .addEvent 1 true [2], .pop 1 1,
     .ruleReturns 1 false, .ruleReturns 0 false, .taskDone 0, .taskDone 1, .setErrors 0, .errFinish 0,
     .setErrors 1, .allErrors], rfl⟩, by decide⟩
 
@@ -348,28 +353,6 @@ theorem no_leftover_panic {s : State} (h : Reachable s) : s.panicked = false :=
   (inv_reachable h).noPanic
 
 /-! ### measure -/
-
-theorem sumWeights_set (l : List Mon) (i : Nat) (m m' : Mon) (h : l[i]? = some m) :
-    sumWeights (l.set i m') + m.weight = sumWeights l + m'.weight := by
-  induction l generalizing i with
-  | nil => simp at h
-  | cons x xs ih =>
-    cases i with
-    | zero => simp at h; subst h; simp [sumWeights]; omega
-    | succ i =>
-      simp at h
-      have := ih i h
-      simp [sumWeights]
-      omega
-
-theorem workLeft_setMon {s : State} {i : Nat} {m m' : Mon} (hm : s.mons[i]? = some m)
-    (hw : m'.weight < m.weight) : workLeft (s.setMon i m') < workLeft s := by
-  have := sumWeights_set s.mons i m m' hm
-  unfold workLeft State.setMon
-  dsimp only
-  omega
-
-theorem workLeft_finishOne (s : State) : workLeft (finishOne s) = workLeft s := rfl
 
 /-- every engine step decreases the measure `workLeft`; `newChild`/`addEvent` (the actions' own
     code) are the only events that can increase it. So from any state only finitely many engine
@@ -381,6 +364,7 @@ theorem measure_decreases {s s' : State} {e : Event} (h : Reachable s) (he : e.i
   have hle := hi.post_le
   cases e with
   | register => simp [Event.internal] at he
+  | regHandler => simp [Event.internal] at he
   | addEvent _ _ _ => simp [Event.internal] at he
   | newChild _ => simp [Event.internal] at he
   | waitReturns => simp [Event.internal] at he
@@ -509,31 +493,169 @@ theorem measure_decreases {s s' : State} {e : Event} (h : Reachable s) (he : e.i
         simp [workLeft, State.clearObs, hp1]
         omega
 
+/-! ### liveness, composed -/
+
+/-- engine steps create no monitor and hand none back: no fresh monitor appears -/
+theorem internal_no_new_fresh {s s' : State} {e : Event} (he : e.internal = true) (hs : step s e = some s')
+    (hnf : ∀ m ∈ s.mons, m.phase ≠ .fresh) : ∀ m ∈ s'.mons, m.phase ≠ .fresh := by
+  have viaSet : ∀ {i : Nat} {x : Mon}, x.phase ≠ .fresh → ∀ m ∈ (s.setMon i x).mons, m.phase ≠ .fresh := by
+    intro i x hx m hm
+    rcases List.mem_or_eq_of_mem_set hm with hm | hm
+    · exact hnf m hm
+    · exact hm ▸ hx
+  cases e with
+  | register => simp [Event.internal] at he
+  | regHandler => simp [Event.internal] at he
+  | addEvent _ _ _ => simp [Event.internal] at he
+  | newChild _ => simp [Event.internal] at he
+  | waitReturns => simp [Event.internal] at he
+  | allErrors => simp [Event.internal] at he
+  | pop w i =>
+    simp only [step] at hs
+    split at hs
+    · split at hs
+      · split at hs
+        · cases hs; exact viaSet (by simp)
+        · cases hs
+      · cases hs
+    · cases hs
+  | ruleReturns i ok =>
+    simp only [step] at hs
+    split at hs
+    · split at hs
+      · rename_i w r rest hph htodo
+        cases hs; exact viaSet (by simp [hph])
+      · cases hs
+    · cases hs
+  | taskDone i =>
+    simp only [step] at hs
+    split at hs
+    · split at hs
+      · split at hs
+        · cases hs; exact viaSet (i := i) (by simp)
+        · cases hs; exact viaSet (by simp)
+      · cases hs
+    · cases hs
+  | setErrors i =>
+    simp only [step] at hs
+    split at hs
+    · split at hs
+      · cases hs; exact viaSet (by simp)
+      all_goals cases hs
+    · cases hs
+  | errFinish i =>
+    simp only [step] at hs
+    split at hs
+    · split at hs
+      · cases hs; exact viaSet (i := i) (by simp)
+      all_goals cases hs
+    · cases hs
+  | notified i =>
+    simp only [step] at hs
+    split at hs
+    · split at hs
+      · cases hs; exact viaSet (by simp)
+      all_goals cases hs
+    · cases hs
+  | dropQueue =>
+    simp only [step] at hs
+    split at hs
+    · cases hs; exact hnf
+    · cases hs
+  | post =>
+    simp only [step] at hs
+    split at hs
+    · cases hs
+    · cases hs; exact hnf
+  | observerRuns o =>
+    cases o <;> simp only [step] at hs <;> split at hs <;> first | (cases hs; done) | (cases hs; exact hnf)
+
+/-- **bounded engine runs**: from a reachable state, every sequence of engine steps (pops, action
+    returns, task ends, error handling, post, callbacks) that the transition system can perform
+    has at most `workLeft s` elements. -/
+theorem bounded_internal_runs {s s' : State} (h : Reachable s) (es : List Event)
+    (hint : ∀ e ∈ es, e.internal = true) (hr : run s es = some s') :
+    es.length + workLeft s' ≤ workLeft s ∧ Reachable s' := by
+  induction es generalizing s with
+  | nil => simp [run] at hr; subst hr; exact ⟨by simp, h⟩
+  | cons e es ih =>
+    simp only [run, List.foldlM_cons] at hr
+    cases hstep : step s e with
+    | none => simp [hstep] at hr
+    | some s1 =>
+      simp [hstep] at hr
+      have hdec := measure_decreases h (hint e (by simp)) hstep
+      have h1 := reachable_step h hstep
+      have := ih h1 (fun e' he' => hint e' (by simp [he'])) hr
+      exact ⟨by simp; omega, this.2⟩
+
+/-- **quiescent ⇒ complete**: in a reachable state in which no engine step is enabled, with at
+    least one worker and every created monitor handed to `AddEvent`: every monitor is finished, the
+    message has been posted, a registered waiter has been released and can return (or has), a
+    registered finish handler has run exactly once. -/
+theorem quiescent_complete {s : State} (h : Reachable s) (hw : 0 < s.workers)
+    (hq : ∀ e, e.internal = true → step s e = none) (hnf : ∀ m ∈ s.mons, m.phase ≠ .fresh) :
+    (∀ m ∈ s.mons, m.phase.finished = true) ∧ s.posted = 1 ∧
+    (s.waiting = true → s.released = 1 ∧ ((step s .waitReturns).isSome = true ∨ s.waitReturned = true)) ∧
+    (s.handlerReg = true → s.handlerCalls = 1) := by
+  have hall : ∀ m ∈ s.mons, m.phase.finished = true :=
+    fun m hm => all_handed_monitors_finish hw hq m hm (hnf m hm)
+  obtain ⟨hp, hrel, hh⟩ := quiescent_released h hq hall
+  refine ⟨hall, hp, ?_, hh⟩
+  intro hwt
+  have hr := hrel hwt
+  refine ⟨hr, ?_⟩
+  cases hret : s.waitReturned with
+  | true => right; rfl
+  | false => left; simp [step, hr, hret]
+
+/- FULL STATEMENT (not proved as such): "a call of AddEventAndWait returns whenever the actions of
+   the cascade terminate and a worker is available" — a statement about every FAIR execution of the
+   Go program: each enabled engine step is eventually taken (Go scheduler, pool: C09), every action
+   performs finitely many NewChildMonitor/AddEvent calls and returns.
+   PROVED below (`wait_returns_partial`): once the actions' own code has handed over all its events
+   (no fresh monitor; the remaining action steps are `ruleReturns`, which are engine steps of the
+   model), EVERY maximal sequence of engine steps is finite — at most `workLeft s` steps — and ends
+   in a state where the waiter has been released and `waitReturns` is enabled, the finish handler
+   has run exactly once, every monitor is finished. Together with `progress` (a step is enabled
+   while a handed monitor is unfinished and a worker is free) this is the whole argument except the
+   fairness assumption itself, which is not expressible in the transition system. -/
+/-- see the comment above for the full statement and what is missing -/
+theorem wait_returns_partial {s s' : State} (h : Reachable s) (hw : 0 < s.workers)
+    (hnf : ∀ m ∈ s.mons, m.phase ≠ .fresh) (es : List Event)
+    (hint : ∀ e ∈ es, e.internal = true) (hr : run s es = some s')
+    (hmax : ∀ e, e.internal = true → step s' e = none) :
+    es.length ≤ workLeft s ∧ (∀ m ∈ s'.mons, m.phase.finished = true) ∧ s'.posted = 1 ∧
+    (s'.waiting = true → s'.released = 1 ∧ ((step s' .waitReturns).isSome = true ∨ s'.waitReturned = true)) ∧
+    (s'.handlerReg = true → s'.handlerCalls = 1) := by
+  obtain ⟨hb, hreach⟩ := bounded_internal_runs h es hint hr
+  have hw' : 0 < s'.workers ∧ ∀ m ∈ s'.mons, m.phase ≠ .fresh := by
+    clear hb hmax hreach
+    induction es generalizing s with
+    | nil => simp [run] at hr; subst hr; exact ⟨hw, hnf⟩
+    | cons e es ih =>
+      simp only [run, List.foldlM_cons] at hr
+      cases hstep : step s e with
+      | none => simp [hstep] at hr
+      | some s1 =>
+        simp [hstep] at hr
+        have hnf1 := internal_no_new_fresh (hint e (by simp)) hstep hnf
+        have hw1 : 0 < s1.workers := by
+          have := workers_const hstep
+          omega
+        exact ih (reachable_step h hstep) hw1 hnf1 (fun e' he' => hint e' (by simp [he'])) hr
+  obtain ⟨a, b, c, d⟩ := quiescent_complete hreach hw'.1 hmax hw'.2
+  exact ⟨by omega, a, b, c, d⟩
+
+/-- non-vacuity of `wait_returns_partial`: a maximal engine run from a state without fresh monitors -/
+example : ∃ s es, Reachable s ∧ 0 < s.workers ∧ (∀ m ∈ s.mons, m.phase ≠ .fresh) ∧
+    (∀ e ∈ es, e.internal = true) ∧ run s es = some sEnd ∧ ∀ e, e.internal = true → step sEnd e = none :=
+  ⟨_, [.pop 0 0, .ruleReturns 0 false, .taskDone 0, .setErrors 0, .errFinish 0, .notified 0, .dropQueue, .post,
+       .observerRuns .wait, .observerRuns .handler, .observerRuns .queue],
+   ⟨1, false, [.register, .regHandler, .addEvent 0 true [7]], rfl⟩, by decide, by decide, by decide, by decide,
+   sEnd_quiescent⟩
+
 /-! ### `failed` is the history of failing actions -/
-
-/-- what an event appends to the failure history of monitor `i`: the action that was executing
-    (head of the trigger sequence) when `ruleReturns i false` happens, nothing otherwise -/
-def failedDelta (e : Event) (i : Nat) (m : Mon) : List Nat :=
-  match e with
-  | .ruleReturns j ok => if j = i ∧ ok = false then m.todo.take 1 else []
-  | _ => []
-
-theorem hist_setMon {s : State} {i j : Nat} {m mj x : Mon} (d : List Nat)
-    (hm : s.mons[i]? = some m) (hj : s.mons[j]? = some mj)
-    (hx : x.failed = mj.failed ++ d) :
-    ∃ m', (s.setMon j x).mons[i]? = some m' ∧ m'.failed = m.failed ++ (if j = i then d else []) := by
-  obtain ⟨hl, _⟩ := getElem_of_get? hj
-  by_cases hji : j = i
-  · subst hji
-    rw [hm] at hj
-    cases hj
-    refine ⟨x, ?_, by simp [hx]⟩
-    show (s.mons.set j x)[j]? = some x
-    simp [hl]
-  · refine ⟨m, ?_, by simp [hji]⟩
-    show (s.mons.set j x)[i]? = some m
-    rw [List.getElem?_set]
-    simp [hji, hm]
 
 /-- Every step changes the `failed` list of every existing monitor exactly by `failedDelta`: it is
     the list of the rules whose action returned an error under that monitor, in order, and nothing
@@ -558,6 +680,14 @@ theorem failed_is_history {s s' : State} {e : Event} (hs : step s e = some s') {
       · cases hs; exact same rfl
       · cases hs
     · cases hs
+  | regHandler =>
+    simp only [step] at hs
+    split at hs; · cases hs
+    split at hs
+    · split at hs
+      · cases hs; exact same rfl
+      · cases hs
+    · cases hs
   | addEvent j trig rules =>
     simp only [step] at hs
     split at hs
@@ -567,7 +697,9 @@ theorem failed_is_history {s s' : State} {e : Event} (hs : step s e = some s') {
         · split at hs
           · cases hs; exact viaSet hj rfl
           · cases hs
-        · cases hs; exact viaSet hj rfl
+        · split at hs
+          · cases hs
+          · cases hs; exact viaSet hj rfl
       all_goals cases hs
     · cases hs
   | newChild p =>
@@ -601,10 +733,10 @@ theorem failed_is_history {s s' : State} {e : Event} (hs : step s e = some s') {
         cases hs
         cases ok with
         | true =>
-          have := viaSet (x := { mj with todo := (if !true && s.failFirst then [] else rest), returned := mj.returned ++ [r], failed := (if true then mj.failed else mj.failed ++ [r]) }) hj (by simp)
+          have := viaSet (x := { mj with todo := (if !true && s.failFirst then [] else rest), failed := (if true then mj.failed else mj.failed ++ [r]) }) hj (by simp)
           simpa [failedDelta] using this
         | false =>
-          have := hist_setMon (i := i) (m := m) (x := { mj with todo := (if !false && s.failFirst then [] else rest), returned := mj.returned ++ [r], failed := (if false then mj.failed else mj.failed ++ [r]) }) [r] hm hj (by simp)
+          have := hist_setMon (i := i) (m := m) (x := { mj with todo := (if !false && s.failFirst then [] else rest), failed := (if false then mj.failed else mj.failed ++ [r]) }) [r] hm hj (by simp)
           obtain ⟨m', h1, h2⟩ := this
           refine ⟨m', h1, ?_⟩
           rw [h2]
@@ -672,129 +804,243 @@ theorem failed_is_history {s s' : State} {e : Event} (hs : step s e = some s') {
     simp only [step] at hs
     cases hs; exact same rfl
 
+/-! ### source facts (regenerated from the tree under test on every run: `lean/Ecal/Gen/C02.lean`)
+
+What ties the granularity of the model's events to the Go text: each fact is computed by the go/ast
+extractor `harness C02 -tool facts` (three-valued) and has to be `some true`. -/
+
+def srcFact (n : String) : Option Bool := (Ecal.Gen.C02.facts.find? (·.1 == n)).bind (·.2)
+
+/-- `descendantFinished` decrements `unfinished` and evaluates the zero test inside ONE critical
+    section of the root's lock (`finishOne` is one event) -/
+theorem src_zero_test_inside_critical_section : srcFact "zeroTestInsideCriticalSection" = some true := by decide
+/-- … and calls `PostEvent` after the lock was released (`post` is a separate event) -/
+theorem src_post_outside_critical_section : srcFact "postOutsideCriticalSection" = some true := by decide
+/-- every write of `unfinished` in package engine happens under the root's lock (`newChild`, `finishOne` are atomic) -/
+theorem src_counter_writes_under_lock : srcFact "counterWritesUnderLock" = some true := by decide
+/-- `SetErrors` attaches the error object before it enters the monitor into `RootMonitor.errors`
+    (`setErrors` is one event; `allErrors_safe` has no nil entry) -/
+theorem src_error_attached_before_registered : srcFact "errorAttachedBeforeRegistered" = some true := by decide
+/-- `Finish`: `finished = true`, then `descendantFinished` -/
+theorem src_finished_flag_before_count : srcFact "finishedFlagBeforeCount" = some true := by decide
+/-- `Task.Run` finishes the monitor only after `ProcessEvent` returned (guard of `newChild`) -/
+theorem src_finish_after_process_event : srcFact "finishAfterProcessEvent" = some true := by decide
+/-- `Task.HandleError`: `SetErrors`, `Finish`, error observer — in this order -/
+theorem src_handle_error_order : srcFact "handleErrorOrder" = some true := by decide
+/-- `AddEventAndWait`: observer registered, then `AddEvent`, then `wg.Wait` (`register` needs a fresh root) -/
+theorem src_wait_observer_before_add_event : srcFact "waitObserverBeforeAddEvent" = some true := by decide
+/-- `AddEvent`: `IsTriggering`, finish-handler observer, `Activate`, `pool.AddTask` — in this order
+    (`regHandler` before `addEvent 0 true`) -/
+theorem src_handler_observer_before_add_task : srcFact "handlerObserverBeforeAddTask" = some true := by decide
+/-- `newMonID` reads and increments the id counter in one critical section (monitor ids are distinct) -/
+theorem src_monitor_id_alloc_in_critical_section : srcFact "monitorIdAllocInCriticalSection" = some true := by decide
+/-- `AllErrors` reads the error map under the root's lock -/
+theorem src_all_errors_under_lock : srcFact "allErrorsUnderLock" = some true := by decide
+/-- `AllErrors` calls no asserting accessor (`Errors()`, `EventPath()`, `AssertTrue`, …): the Go
+    function has no failing branch, as `Ecal.Cascade.allErrors` (da28f66) -/
+theorem src_all_errors_calls_no_asserting_accessor :
+    Ecal.Gen.C02.allErrorsCalls.all (fun c =>
+      !(["Errors", "EventPath", "EventPathString", "AssertTrue", "AssertOk", "String", "Error", "panic"].contains c)) = true := by
+  decide
+/-- `EventPump.PostEvent` calls only callbacks registered for the posting source (or for all sources) -/
+theorem src_post_filters_by_source : srcFact "postFiltersBySource" = some true := by decide
+
 /-! ### several cascades in flight -/
 
-theorem reachable_step {s s' : State} {e : Event} (h : Reachable s) (hs : step s e = some s') :
-    Reachable s' := by
-  obtain ⟨w, ff, es, hr⟩ := h
-  refine ⟨w, ff, es ++ [e], ?_⟩
-  simp [run, List.foldlM_append] at hr ⊢
-  simp [hr, hs]
+/-! ### the shared observer table, pending callbacks and queue map (`Ecal.Cascade.Conc`) -/
 
-theorem sys_inv_step {S S' : Sys} {e : SysEvent} (h : ∀ s ∈ S.roots, Reachable s)
-    (hs : Sys.step S e = some S') : ∀ s ∈ S'.roots, Reachable s := by
-  cases e with
-  | newRoot =>
-    simp only [Sys.step] at hs
-    cases hs
-    intro s hs
-    rcases List.mem_append.mp hs with hs | hs
-    · exact h s hs
-    · simp at hs; subst hs; exact ⟨_, _, [], rfl⟩
-  | «at» r e =>
-    simp only [Sys.step] at hs
+/-- **projection**: a step of cascade `r` in the system with ONE shared observer table, ONE list of
+    pending callbacks and ONE queue map (global append / filter-by-key / erase, `PostEvent` keeping
+    the callbacks of the posting source) is — read through `view r` — exactly a step of
+    `Cascade.step`, and the view of every other root is unchanged. -/
+theorem conc_refines {C C' : Conc} {r : Nat} {e : Event} (hs : Conc.step C r e = some C') :
+    ∃ v v', C.view r = some v ∧ step v e = some v' ∧ C'.view r = some v' ∧
+      ∀ r', r' ≠ r → C'.view r' = C.view r' := by
+  simp only [Conc.step] at hs
+  split at hs
+  · cases hs
+  · rename_i v hv
     split at hs
-    · rename_i s0 hs0
-      split at hs
-      · obtain ⟨s1, hstep, hS⟩ := Option.map_eq_some_iff.mp hs
-        subst hS
-        intro s hs
-        rcases List.mem_or_eq_of_mem_set hs with hs | hs
-        · exact h s hs
-        · exact hs ▸ reachable_step (h s0 (List.mem_of_getElem? hs0)) hstep
+    · split at hs
       · cases hs
+      · rename_i v' hstep
+        cases hs
+        have hv2 := hv
+        rw [view_eq] at hv2
+        obtain ⟨s0, hs0, hs0v⟩ := Option.map_eq_some_iff.mp hv2
+        have hr : r < C.roots.length := (List.getElem?_eq_some_iff.mp hs0).1
+        have hsf : v.sharedFields = counters C.table C.pending C.queues r := by
+          rw [← hs0v]; rfl
+        refine ⟨v, v', hv, hstep, ?_, ?_⟩
+        · rw [view_eq, shared_roots]
+          have hc := shared_counts_self { C with roots := C.roots.set r v'.local } r e v hsf
+          rw [hc, ← step_shared_fields hstep]
+          simp [List.getElem?_set_self hr, withCounters_local]
+        · intro r' hne
+          rw [view_eq, view_eq, shared_roots, shared_counts_other _ _ _ hne]
+          simp [List.getElem?_set_ne (Ne.symm hne)]
     · cases hs
 
-/-- every cascade of a reachable system state is a reachable state of the single-cascade transition
-    system: all theorems above hold for each of several cascades in flight on one processor -/
-theorem sys_component_reachable {S : Sys} (h : S.Reachable) : ∀ s ∈ S.roots, Reachable s := by
+/-- every root of a reachable shared system, read through `view`, is a reachable state of the
+    single-cascade transition system — so every theorem of this file holds for each of several
+    cascades in flight on one processor with its shared pump, queue and pool -/
+theorem conc_view_reachable {C : Conc} (h : C.Reachable) {r : Nat} {v : State} (hv : C.view r = some v) :
+    Reachable v := by
   obtain ⟨w, ff, es, hr⟩ := h
-  suffices ∀ (es : List SysEvent) (S0 : Sys), (∀ s ∈ S0.roots, Reachable s) → Sys.run S0 es = some S →
-      ∀ s ∈ S.roots, Reachable s from this es _ (by simp [Sys.init]) hr
+  let J (C : Conc) : Prop :=
+    (∀ r', C.roots.length ≤ r' → counters C.table C.pending C.queues r' = (0, 0, 0, false, 0, 0, 0)) ∧
+    (∀ r v, C.view r = some v → Reachable v)
+  suffices ∀ (es : List ConcEvent) (C0 : Conc), J C0 → Conc.run C0 es = some C → J C from
+    (this es _ ⟨by intro r' _; simp [Conc.init, counters, cnt], by intro r v hv; simp [Conc.init, Conc.view] at hv⟩ hr).2 r v hv
   intro es
   induction es with
-  | nil => intro S0 h0 hr; simp [Sys.run] at hr; exact hr ▸ h0
+  | nil => intro C0 h0 hr; simp [Conc.run] at hr; exact hr ▸ h0
   | cons e es ih =>
-    intro S0 h0 hr
-    simp only [Sys.run, List.foldlM_cons] at hr
-    cases hstep : Sys.step S0 e with
+    intro C0 h0 hr
+    simp only [Conc.run, List.foldlM_cons] at hr
+    cases hstep : Conc.stepE C0 e with
     | none => simp [hstep] at hr
-    | some S1 => simp [hstep] at hr; exact ih S1 (sys_inv_step h0 hstep) hr
+    | some C1 =>
+      simp [hstep] at hr
+      refine ih C1 ?_ hr
+      cases e with
+      | newRoot =>
+        simp only [Conc.stepE] at hstep
+        cases hstep
+        constructor
+        · intro r' hr'
+          apply h0.1
+          simp at hr'
+          omega
+        · intro r v hv
+          rw [view_eq] at hv
+          obtain ⟨s0, hs0, hs0v⟩ := Option.map_eq_some_iff.mp hv
+          by_cases hlt : r < C0.roots.length
+          · have hs0' : C0.roots[r]? = some s0 := by
+              have : (C0.roots ++ [(Cascade.init C0.workers C0.failFirst).local])[r]? = some s0 := hs0
+              rwa [List.getElem?_append_left hlt] at this
+            exact h0.2 r v (by rw [view_eq, hs0']; exact congrArg some hs0v)
+          · have hlen := (List.getElem?_eq_some_iff.mp hs0).1
+            simp at hlen
+            have hreq : r = C0.roots.length := by omega
+            subst hreq
+            have : (C0.roots ++ [(Cascade.init C0.workers C0.failFirst).local])[C0.roots.length]? = some s0 := hs0
+            simp at this
+            have hz := h0.1 C0.roots.length (Nat.le_refl _)
+            have hz' : counters C0.table C0.pending C0.queues C0.roots.length = (0, 0, 0, false, 0, 0, 0) := hz
+            rw [← hs0v, ← this]
+            show Reachable (withCounters _ (counters C0.table C0.pending C0.queues C0.roots.length))
+            rw [hz']
+            exact ⟨C0.workers, C0.failFirst, [], rfl⟩
+      | «at» r e =>
+        simp only [Conc.stepE] at hstep
+        obtain ⟨v0, v1, hv0, hs01, hv1, hoth⟩ := conc_refines hstep
+        have hrlt : r < C0.roots.length := by
+          rw [view_eq] at hv0
+          obtain ⟨s0, hs0, _⟩ := Option.map_eq_some_iff.mp hv0
+          exact (List.getElem?_eq_some_iff.mp hs0).1
+        have hlen : C1.roots.length = C0.roots.length := by
+          simp only [Conc.step] at hstep
+          rw [hv0] at hstep
+          simp only at hstep
+          split at hstep
+          · rw [hs01] at hstep
+            cases hstep
+            rw [shared_roots]
+            simp
+          · cases hstep
+        constructor
+        · intro r' hr'
+          rw [hlen] at hr'
+          have hne : r' ≠ r := by omega
+          have := h0.1 r' hr'
+          simp only [Conc.step] at hstep
+          rw [hv0] at hstep
+          simp only at hstep
+          split at hstep
+          · rw [hs01] at hstep
+            cases hstep
+            rw [shared_counts_other _ _ _ hne]
+            exact this
+          · cases hstep
+        · intro r' v hv
+          by_cases hrr : r' = r
+          · subst hrr
+            rw [hv1] at hv
+            cases hv
+            exact reachable_step (h0.2 r' v0 hv0) hs01
+          · rw [hoth r' hrr] at hv
+            exact h0.2 r' v hv
 
-/-- **nothing from another cascade**: an event of cascade `r` leaves every other cascade — its
-    monitors, counter, error map, hence its error report — untouched -/
-theorem sys_frame {S S' : Sys} {r : Nat} {e : Event} (hs : Sys.step S (.at r e) = some S')
-    (r' : Nat) (hne : r' ≠ r) : S'.roots[r']? = S.roots[r']? := by
-  simp only [Sys.step] at hs
-  split at hs
-  · split at hs
-    · obtain ⟨s1, _, hS⟩ := Option.map_eq_some_iff.mp hs
-      subst hS
-      show (S.roots.set r _)[r']? = _
-      rw [List.getElem?_set]
-      simp [Ne.symm hne]
-    · cases hs
-  · cases hs
-
-/-- `errors_exact` and `wait_after_cascade` for a cascade that runs beside others -/
-theorem sys_errors_exact {S : Sys} (h : S.Reachable) {r : Nat} {s : State} (hr : S.roots[r]? = some s)
-    (hw : 0 < s.released) :
-    allErrors s = expectedReport s ∧ ∀ m ∈ s.mons, m.phase.finished = true ∧ m.todo = [] := by
-  have hreach := sys_component_reachable h s (List.mem_of_getElem? hr)
+/-- `errors_exact` + `wait_after_cascade` for a cascade running beside others on the shared pump:
+    its report holds exactly its own failed (event, rule) entries — nothing of another cascade -/
+theorem conc_errors_exact {C : Conc} (h : C.Reachable) {r : Nat} {v : State} (hv : C.view r = some v)
+    (hw : 0 < v.released) :
+    allErrors v = expectedReport v ∧ ∀ m ∈ v.mons, m.phase.finished = true ∧ m.todo = [] := by
+  have hreach := conc_view_reachable h hv
   refine ⟨errors_exact hreach hw, ?_⟩
-  have hwr : (step s .waitReturns).isSome ∨ s.waitReturned = true := by
-    cases hret : s.waitReturned
-    · left; simp [step, hw, hret]
-    · right; rfl
-  rcases hwr with hwr | hwr
-  · intro m hm
-    have := wait_after_cascade hreach hwr m hm
+  cases hret : v.waitReturned with
+  | true => exact returned_after_cascade hreach hret
+  | false =>
+    intro m hm
+    have := wait_after_cascade hreach (by simp [step, hw, hret]) m hm
     exact ⟨this.1, this.2.1⟩
-  · exact returned_after_cascade hreach hwr
 
-example : ∃ S : Sys, S.Reachable ∧ S.roots.length = 2 ∧ ∃ s, S.roots[1]? = some s ∧ 0 < s.released :=
-  ⟨_, ⟨2, false, [.newRoot, .newRoot, .at 0 (.addEvent 0 true [1]), .at 0 (.pop 0 0), .at 1 .register,
-    .at 1 (.addEvent 0 true [5]), .at 1 (.pop 1 0), .at 1 (.ruleReturns 0 false), .at 1 (.taskDone 0),
-    .at 1 (.setErrors 0), .at 1 (.errFinish 0), .at 1 .post, .at 1 (.observerRuns .wait)], rfl⟩,
-    by decide, _, rfl, by decide⟩
-
-/-- a worker occupied in one cascade cannot take a task of another -/
-example : Sys.run (Sys.init 1 false) [.newRoot, .newRoot, .at 0 (.addEvent 0 true [1]),
-    .at 1 (.addEvent 0 true [2]), .at 0 (.pop 0 0), .at 1 (.pop 0 0)] = none := by decide
-
-/-- progress in the system: a handed, unfinished monitor of some cascade and a worker that is free
-    in every cascade ⇒ an engine step of that cascade is enabled -/
-theorem sys_progress {S : Sys} {r i w : Nat} {s : State} {m : Mon} (hr : S.roots[r]? = some s)
-    (hm : s.mons[i]? = some m) (hu : m.phase.finished = false) (hh : m.phase ≠ .fresh)
-    (hw : w < s.workers) (hfree : S.workerFree w = true) :
-    ∃ e, e.internal = true ∧ (Sys.step S (.at r e)).isSome := by
-  have hfree' : s.workerFree w = true := by
-    simp only [Sys.workerFree, List.all_eq_true] at hfree
-    exact hfree s (List.mem_of_getElem? hr)
-  have nonpop : ∀ e, e.isPop = false → (step s e).isSome → (Sys.step S (.at r e)).isSome := by
-    intro e hp hs
-    cases hse : step s e with
+/-- progress in the shared system: a handed, unfinished monitor of some cascade and a worker that is
+    free in EVERY cascade ⇒ an engine step of that cascade is enabled in `Conc` -/
+theorem conc_progress {C : Conc} {r i w : Nat} {v : State} {m : Mon} (hv : C.view r = some v)
+    (hm : v.mons[i]? = some m) (hu : m.phase.finished = false) (hh : m.phase ≠ .fresh)
+    (hw : w < v.workers) (hfree : C.workerFree w = true) :
+    ∃ e, e.internal = true ∧ (C.step r e).isSome = true := by
+  have hv2 := hv
+  rw [view_eq] at hv2
+  obtain ⟨s0, hs0, hs0v⟩ := Option.map_eq_some_iff.mp hv2
+  have hfree' : v.workerFree w = true := by
+    simp only [Conc.workerFree, List.all_eq_true] at hfree
+    have := hfree s0 (List.mem_of_getElem? hs0)
+    rw [← hs0v]; exact this
+  have lift : ∀ e, C.allows e = true → (step v e).isSome = true → (C.step r e).isSome = true := by
+    intro e ha hs
+    cases hse : step v e with
     | none => simp [hse] at hs
-    | some s' =>
-      have : S.allows e = true := by cases e <;> simp_all [Sys.allows, Event.isPop]
-      simp [Sys.step, hr, this, hse]
+    | some v' => simp [Conc.step, hv, ha, hse]
   cases hph : m.phase with
   | fresh => exact absurd hph hh
   | done => simp [hph, Phase.finished] at hu
   | queued =>
-    refine ⟨.pop w i, rfl, ?_⟩
-    simp [Sys.step, hr, Sys.allows, hfree, step, hm, hph, hw, hfree']
+    exact ⟨.pop w i, rfl, lift _ (by simp [Conc.allows, hfree]) (by simp [step, hm, hph, hw, hfree'])⟩
   | running w' =>
     obtain ⟨e, hi, hnp, hs⟩ := busy_step hm (w := w') (by simp [hph, Phase.worker])
-    exact ⟨e, hi, nonpop e hnp hs⟩
+    exact ⟨e, hi, lift e (by cases e <;> simp_all [Conc.allows, Event.isPop]) hs⟩
   | failing w' =>
     obtain ⟨e, hi, hnp, hs⟩ := busy_step hm (w := w') (by simp [hph, Phase.worker])
-    exact ⟨e, hi, nonpop e hnp hs⟩
+    exact ⟨e, hi, lift e (by cases e <;> simp_all [Conc.allows, Event.isPop]) hs⟩
   | errSet w' =>
     obtain ⟨e, hi, hnp, hs⟩ := busy_step hm (w := w') (by simp [hph, Phase.worker])
-    exact ⟨e, hi, nonpop e hnp hs⟩
+    exact ⟨e, hi, lift e (by cases e <;> simp_all [Conc.allows, Event.isPop]) hs⟩
   | notifying w' =>
     obtain ⟨e, hi, hnp, hs⟩ := busy_step hm (w := w') (by simp [hph, Phase.worker])
-    exact ⟨e, hi, nonpop e hnp hs⟩
+    exact ⟨e, hi, lift e (by cases e <;> simp_all [Conc.allows, Event.isPop]) hs⟩
+
+/-- a worker occupied in one cascade cannot take a task of another -/
+example : Conc.run (Conc.init 1 false) [.newRoot, .newRoot, .at 0 .regHandler, .at 0 (.addEvent 0 true [1]),
+    .at 1 .regHandler, .at 1 (.addEvent 0 true [2]), .at 0 (.pop 0 0), .at 1 (.pop 0 0)] = none := by decide
+
+/-- negative witness: a `PostEvent` that does not filter its snapshot by the posting source (not the
+    code, cf. `src_post_filters_by_source`) hands the waiter of ANOTHER, unfinished cascade its
+    callback: root 1 (one monitor outstanding, nothing posted) gets a pending wait callback when
+    root 0 posts. -/
+theorem unfiltered_post_reaches_foreign_waiter :
+    ∃ C v, Conc.run (Conc.init 2 false) [.newRoot, .newRoot, .at 1 .register, .at 1 .regHandler,
+        .at 1 (.addEvent 0 true [1]), .at 0 .regHandler, .at 0 (.addEvent 0 true [1]), .at 0 (.pop 0 0),
+        .at 0 (.ruleReturns 0 true), .at 0 (.taskDone 0)] = some C ∧
+      (C.postEventUnfiltered 0).view 1 = some v ∧ v.dWait = 1 ∧ v.posted = 0 ∧ v.unfinished = 1 ∧
+      (step v (.observerRuns .wait)).isSome = true :=
+  ⟨_, _, rfl, rfl, by decide⟩
+
+example : ∃ C : Conc, C.Reachable ∧ ∃ v, C.view 1 = some v ∧ 0 < v.released ∧ C.roots.length = 2 :=
+  ⟨_, ⟨2, false, [.newRoot, .newRoot, .at 0 .regHandler, .at 0 (.addEvent 0 true [1]), .at 0 (.pop 0 0), .at 1 .register,
+    .at 1 .regHandler, .at 1 (.addEvent 0 true [5]), .at 1 (.pop 1 0), .at 1 (.ruleReturns 0 false), .at 1 (.taskDone 0),
+    .at 1 (.setErrors 0), .at 1 (.errFinish 0), .at 1 .post, .at 1 (.observerRuns .wait)], rfl⟩, _, rfl, by decide⟩
 
 end Ecal.Props.C02
